@@ -1927,9 +1927,9 @@ package formula
 //@   ensures[C11] num(source) && basicNumK(rkind(rtId(target))) ==> result1 == nil && !isnil(result0) && rkind(typeOf(result0)) == rkind(rtId(target))
 //@   ensures[C11] num(source) && rkind(rtId(target)) == 6 && d2iOK(nval(source)) ==> result0 == box(d2i(nval(source)), int64)
 //@   ensures[C11] num(source) && rkind(rtId(target)) == 2 && d2iOK(nval(source)) ==> result0 == box(d2i(nval(source)), int)
-//@   ensures[C11] num(source) && rkind(rtId(target)) == 5 ==> result0 == box(f2i(d2f(nval(source))), int32)
-//@   ensures[C11] num(source) && rkind(rtId(target)) == 14 ==> result0 == box(d2f(nval(source)), float64)
-//@   ensures[C11] num(source) && rkind(rtId(target)) == 13 ==> result0 == box(f2f32(d2f(nval(source))), float32)
+//@   ensures[C11] num(source) && rkind(rtId(target)) == 5 && d2iOK(nval(source)) && -2147483648 <= d2i(nval(source)) && d2i(nval(source)) <= 2147483647 ==> result0 == box(d2i(nval(source)), int32)
+//@   ensures[C11] num(source) && rkind(rtId(target)) == 14 && dfinite(nval(source)) ==> result0 == box(dnear(nval(source)), float64)
+//@   ensures[C11] num(source) && rkind(rtId(target)) == 13 && dfinite(nval(source)) ==> result0 == box(f2f32(dnear32(nval(source))), float32)
 //@   ensures[C03] !num(source) ==> result1 != nil
 
 //@ func convStructToTarget
@@ -1954,7 +1954,7 @@ package formula
 //@   ensures[C11,C19] rkind(rtId(target)) == 25 ==> (result1 == nil) == (typeOf(source) == rtId(target)) && (result1 == nil ==> result0 == source)
 //@   ensures[C11] num(source) && rtId(target) == typeid(int64) && d2iOK(nval(source)) ==> result1 == nil && result0 == box(d2i(nval(source)), int64)
 //@   ensures[C11] num(source) && rtId(target) == typeid(int) && d2iOK(nval(source)) ==> result1 == nil && result0 == box(d2i(nval(source)), int)
-//@   ensures[C11] num(source) && rtId(target) == typeid(float64) ==> result1 == nil && result0 == box(d2f(nval(source)), float64)
+//@   ensures[C11] num(source) && rtId(target) == typeid(float64) && dfinite(nval(source)) ==> result1 == nil && result0 == box(dnear(nval(source)), float64)
 //@   ensures[C11] isstr(source) && rtId(target) == typeid(string) ==> result1 == nil && result0 == source
 //@   ensures[C11] num(source) && rtId(target) == typeid(string) ==> result1 == nil && isstr(result0)
 
